@@ -67,12 +67,6 @@ func pruneNulls(n *lazyNode, options *ApplyOptions) {
 
 	if err == nil {
 		pruneDocNulls(sub, options)
-	} else {
-		ary, err := n.intoAry()
-
-		if err == nil {
-			pruneAryNulls(ary, options)
-		}
 	}
 }
 
@@ -86,21 +80,6 @@ func pruneDocNulls(doc *partialDoc, options *ApplyOptions) *partialDoc {
 	}
 
 	return doc
-}
-
-func pruneAryNulls(ary *partialArray, options *ApplyOptions) *partialArray {
-	newAry := []*lazyNode{}
-
-	for _, v := range ary.nodes {
-		if v != nil {
-			pruneNulls(v, options)
-		}
-		newAry = append(newAry, v)
-	}
-
-	ary.nodes = newAry
-
-	return ary
 }
 
 var ErrBadJSONDoc = fmt.Errorf("Invalid JSON Document")
@@ -177,8 +156,6 @@ func doMergePatch(docData, patchData []byte, mergeMerge bool) ([]byte, error) {
 				}
 				return nil, ErrBadJSONPatch
 			}
-
-			pruneAryNulls(patchAry, options)
 
 			out, patchErr := json.Marshal(patchAry.nodes)
 
